@@ -1,7 +1,7 @@
 (* C14 proofs, part 3: rebin. *)
 From Coq Require Import ZArith QArith Qround Qabs List Bool Lia Lqa ZifyBool.
 Import ListNotations.
-From PV Require Import C14.Model C14.Proofs.
+From PV Require Import Generated.Rebin C14.Model C14.Proofs.
 Open Scope Z_scope.
 Ltac Zify.zify_post_hook ::= Z.to_euclidean_division_equations.
 
@@ -71,14 +71,19 @@ Section AxisProofs.
   Theorem rebin_axis_refines_spec sample (xs : list T) d :
     rebin_axis o sample xs d = rebin_axis_spec o sample xs d.
   Proof.
-    unfold rebin_axis, rebin_axis_spec. destruct (lenZ xs <? d) eqn:E1.
-    - assert (Hd : 0 < d) by (unfold lenZ in *; lia).
+    unfold rebin_axis, rebin_axis_spec.
+    unfold rebin_is_expand, rebin_is_keep, rebin_shrink_f, rebin_shrink_pick, rebin_shrink_lo, rebin_shrink_hi.
+    destruct (lenZ xs <? d) eqn:E1.
+    - replace (d >? lenZ xs) with true by lia.
+      assert (Hd : 0 < d) by (unfold lenZ in *; lia).
       apply map_seq_ext. intros k Hk. cbv zeta.
       rewrite Qfloor_scaled by exact Hd. rewrite scaled_lt by exact Hd.
       destruct sample; [reflexivity|].
       destruct (Z.of_nat k * lenZ xs / d <? lenZ xs - 1); [|reflexivity].
       f_equal. apply Qred_complete. apply scaled_frac. exact Hd.
-    - destruct (lenZ xs =? d) eqn:E2; [reflexivity|].
+    - replace (d >? lenZ xs) with false by lia.
+      destruct (lenZ xs =? d) eqn:E2; [replace (d =? lenZ xs) with true by lia; reflexivity|].
+      replace (d =? lenZ xs) with false by lia.
       apply map_seq_ext. intros k Hk. cbv zeta.
       assert (Hd : 0 < d) by lia.
       set (f := lenZ xs / d). set (i := Z.of_nat k).
@@ -236,22 +241,43 @@ Qed.
 
 (* ------------------------------------------------------------------ 1-D / 2-D / 3-D wrappers *)
 
+(* the GENERATED shape tests (rank test + per-axis `%` tests) are the documented rule *)
+Lemma axis_rejects_eq a b :
+  negb (rebin_axis_rejects a b) = (if a <? b then b mod a =? 0 else if a =? b then true else a mod b =? 0).
+Proof.
+  unfold rebin_axis_rejects. destruct (a <? b) eqn:E1.
+  - replace (b >? a) with true by lia. apply negb_involutive.
+  - replace (b >? a) with false by lia. destruct (a =? b) eqn:E2.
+    + replace (b =? a) with true by lia. reflexivity.
+    + replace (b =? a) with false by lia. apply negb_involutive.
+Qed.
+
+Theorem dims_ok_gen_eq d0 : forall d, dims_ok_gen d0 d = dims_ok d0 d.
+Proof.
+  unfold dims_ok_gen, rebin_rank_rejects.
+  induction d0 as [|a r0 IH]; intros [|b r]; cbn [dims_ok combine forallb]; try reflexivity.
+  rewrite <- IH. cbn [fst snd]. rewrite axis_rejects_eq.
+  replace (lenZ (a :: r0) =? lenZ (b :: r)) with (lenZ r0 =? lenZ r) by (unfold lenZ; cbn [length]; lia).
+  rewrite !negb_involutive.
+  destruct (lenZ r0 =? lenZ r); cbn [andb]; [reflexivity|]. rewrite andb_false_r. reflexivity.
+Qed.
+
 Theorem rebin1_refines k s x d : rebin1 k s x d = rebin1_spec k s x d.
 Proof.
-  unfold rebin1, rebin1_spec, rebin1_with. destruct (dims_ok (shape1 x) d); [|reflexivity].
+  unfold rebin1, rebin1_spec, rebin1_with. rewrite dims_ok_gen_eq. destruct (dims_ok (shape1 x) d); [|reflexivity].
   destruct d as [|a [|b r]]; try reflexivity. rewrite rebin_axis_refines_spec. reflexivity.
 Qed.
 
 Theorem rebin2_refines k s x d : rebin2 k s x d = rebin2_spec k s x d.
 Proof.
-  unfold rebin2, rebin2_spec, rebin2_with. destruct (dims_ok (shape2 x) d); [|reflexivity].
+  unfold rebin2, rebin2_spec, rebin2_with. rewrite dims_ok_gen_eq. destruct (dims_ok (shape2 x) d); [|reflexivity].
   destruct d as [|a [|b [|c r]]]; try reflexivity. rewrite rebin_axis_refines_spec.
   f_equal. apply map_ext. intros row. apply rebin_axis_refines_spec.
 Qed.
 
 Theorem rebin3_refines k s x d : rebin3 k s x d = rebin3_spec k s x d.
 Proof.
-  unfold rebin3, rebin3_spec, rebin3_with. destruct (dims_ok (shape3 x) d); [|reflexivity].
+  unfold rebin3, rebin3_spec, rebin3_with. rewrite dims_ok_gen_eq. destruct (dims_ok (shape3 x) d); [|reflexivity].
   destruct d as [|a [|b [|c [|e r]]]]; try reflexivity. rewrite rebin_axis_refines_spec.
   f_equal. rewrite !map_map. apply map_ext. intros plane. rewrite rebin_axis_refines_spec.
   apply map_ext. intros row. apply rebin_axis_refines_spec.
@@ -280,7 +306,7 @@ Proof. intros H. apply dims_ok_iff in H. eapply Forall2_length; eauto. Qed.
 
 Theorem rebin1_rejects k s x d : rebin1 k s x d = RValueError <-> ~ Forall2 factor_ok (shape1 x) d.
 Proof.
-  rewrite <- dims_ok_iff. unfold rebin1, rebin1_with. destruct (dims_ok (shape1 x) d) eqn:E.
+  rewrite <- dims_ok_iff. unfold rebin1, rebin1_with. rewrite dims_ok_gen_eq. destruct (dims_ok (shape1 x) d) eqn:E.
   - pose proof (dims_ok_length _ _ E) as L. destruct d as [|a [|b r]]; try discriminate L.
     split; [discriminate|congruence].
   - split; [congruence|reflexivity].
@@ -288,7 +314,7 @@ Qed.
 
 Theorem rebin2_rejects k s x d : rebin2 k s x d = RValueError <-> ~ Forall2 factor_ok (shape2 x) d.
 Proof.
-  rewrite <- dims_ok_iff. unfold rebin2, rebin2_with. destruct (dims_ok (shape2 x) d) eqn:E.
+  rewrite <- dims_ok_iff. unfold rebin2, rebin2_with. rewrite dims_ok_gen_eq. destruct (dims_ok (shape2 x) d) eqn:E.
   - pose proof (dims_ok_length _ _ E) as L. destruct d as [|a [|b [|c r]]]; try discriminate L.
     split; [discriminate|congruence].
   - split; [congruence|reflexivity].
@@ -296,7 +322,7 @@ Qed.
 
 Theorem rebin3_rejects k s x d : rebin3 k s x d = RValueError <-> ~ Forall2 factor_ok (shape3 x) d.
 Proof.
-  rewrite <- dims_ok_iff. unfold rebin3, rebin3_with. destruct (dims_ok (shape3 x) d) eqn:E.
+  rewrite <- dims_ok_iff. unfold rebin3, rebin3_with. rewrite dims_ok_gen_eq. destruct (dims_ok (shape3 x) d) eqn:E.
   - pose proof (dims_ok_length _ _ E) as L. destruct d as [|a [|b [|c [|e r]]]]; try discriminate L.
     split; [discriminate|congruence].
   - split; [congruence|reflexivity].
